@@ -1,5 +1,6 @@
 (* Props/C03.v -- C03: 6502 instructions assemble to the MOS encoding with the right addressing mode. *)
 From Az65 Require Import Base Token Expr ExprParse Linker Asm Arch ArchTables LinkerFacts ArchSpec Isa6502 Mos6502Facts.
+From Az65 Require Import LinkerFacts LinkGenFacts.
 
 (* (1) every row, for all operand bytes: the MOS opcode of that mnemonic and addressing mode followed
        by the operand in little-endian order, nothing else *)
@@ -45,3 +46,12 @@ Theorem C03_little_endian : forall v,
   (if (0 <=? v) && (v <=? 65535) then Ok [Z.to_N (v mod 256); Z.to_N (v / 256)] else Diag DkRange).
 Proof. exact word_field_roundtrip. Qed.
 Print Assumptions C03_little_endian.
+
+(* TRANSLATOR TIE for operands that are only known at link time: the range test and the stores of the five arms of
+   Module::link, re-translated from src/linker.rs on every run, are those of the model's apply_link. *)
+Theorem C03_generated_link_arms :
+  forall st (l : Linker.link) (d : list N) (v : Z),
+    Expr.eval_top st (Linker.l_expr l) = Expr.Val v -> in_i32 v ->
+    Linker.apply_link st l d = gen_apply_link (Linker.l_kind l) (Linker.l_off l) v d.
+Proof. exact generated_link_arms_are_model_arms. Qed.
+Print Assumptions C03_generated_link_arms.
